@@ -795,11 +795,18 @@ def _compare(ctx, pending, answers):
         model = ('ok', ans['ok']) if 'ok' in ans else ('err', ans['err'])
         if impl[0] != model[0]:
             ctx.disagree('L0', case, impl, model, f'{kind}: ok-vs-error')
-        elif impl[0] == 'ok' and impl[1] is not None and impl[1] != model[1]:
-            diff = impl[1]
-            if isinstance(impl[1], dict) and isinstance(model[1], dict):
-                diff = {k: (impl[1].get(k), model[1].get(k)) for k in set(impl[1]) | set(model[1]) if impl[1].get(k) != model[1].get(k)}
-            ctx.disagree('L1' if kind in ('doc', 'ko') else 'L0', case, diff, None, f'{kind}: value')
+        elif impl[0] == 'ok' and impl[1] is not None:
+            a, b = impl[1], model[1]
+            if isinstance(a, dict) and isinstance(b, dict):
+                keys = sorted(set(a) & set(b))
+                if 'resolved' in keys:
+                    a = dict(a, resolved=sorted(a['resolved']))
+                    b = dict(b, resolved=sorted(b['resolved']))
+                diff = {k: {'impl': a[k], 'model': b[k]} for k in keys if a[k] != b[k]}
+                if diff:
+                    ctx.disagree('L1' if kind in ('doc', 'ko') else 'L0', case, diff, None, f'{kind}: value')
+            elif a != b:
+                ctx.disagree('L0', case, a, b, f'{kind}: value')
 
 
 def run(ctx):
